@@ -28,6 +28,14 @@ KNOWN = os.path.join(ROOT, "KNOWN_FINDINGS.txt")
 BUILD = os.environ.get("VK_BUILD") or os.path.join(ROOT, ".build", "run-%d" % os.getpid())   # per process: checks may run concurrently
 XSIM_PROPS = {"C01", "C07", "C08", "C09", "C10", "C11", "C18"}
 XREG_PROPS = {"C06", "C11"}
+EXTRA_STANDINS = {
+    "xreg": {"props": XREG_PROPS, "short": "real registration + report text, every model hierarchy up to the bound",
+             "unit_of_count": "hierarchies", "scenario_word": "model hierarchy",
+             "what": "contracts/xreg.rs: real text of simulation::add_model, BuildContext, SimInit::add_model, Simulation::{new,run} cut from /repo with no rewrite rule, compiled against executable stubs, run on every model hierarchy up to the bound. LABELLED BOUNDED: not part of obligations/discharged."},
+    "xpq": {"props": {"C20", "C07"}, "short": "real text of both priority queues, every operation sequence up to the bound",
+            "unit_of_count": "operation sequences", "scenario_word": "operation sequence",
+            "what": "contracts/xpq.rs: util/priority_queue.rs and util/indexed_priority_queue.rs, each file whole up to its test module, cut from /repo with no rewrite rule and compiled as they stand; every operation sequence up to the bound compared with a reference list. LABELLED BOUNDED: not part of obligations/discharged."},
+}
 
 
 def log(*a):
@@ -359,6 +367,11 @@ def evaluate(prop, tier, tmpls, unit_cache, kani_cache):
         for f in r["failures"]:
             if prop in f.props:
                 all_fail.append((f, r))
+            elif not (f.props & set(tmpls[r["unit"]].props)):
+                # a refuted obligation attributed only to properties this unit is not registered for would be seen by
+                # no check at all: never silently ignored
+                undecided.append("%s: refuted obligation %s is attributed to %s, for which unit %s is not registered" % (
+                    r["unit"], f.oid, ",".join(sorted(f.props)), r["unit"]))
     for kr in kres:
         undecided += ["kani %s: %s" % (kr["harness"], u) for u in kr["undecided"]]
         for f in kr["failures"]:
@@ -368,24 +381,29 @@ def evaluate(prop, tier, tmpls, unit_cache, kani_cache):
         for xf in xs["failures"]:
             if prop in xf["props"].split(","):
                 xfails.append(xf)
-    # second bounded stand-in: model registration + failure reports (contracts/xreg.rs)
-    xr = None
-    if prop in XREG_PROPS:
-        if "__xreg__" not in unit_cache:
+    # further bounded stand-ins (contracts/x*.rs): real text + executable stubs, exhaustive up to their bound
+    extra = {}
+    for xname, xdef in EXTRA_STANDINS.items():
+        if prop not in xdef["props"]:
+            continue
+        ck = "__%s__" % xname
+        if ck not in unit_cache:
             from . import xsim as X
-            log("[%s] bounded stand-in xreg (real registration + report text, every model hierarchy up to the bound) …" % prop)
-            unit_cache["__xreg__"] = X.run(tier, BUILD, "xreg")
-            x = unit_cache["__xreg__"]
-            log("[%s]   xreg: %s hierarchies, %d failing checks, %.1fs%s" % (prop, x["scenarios"], len(x["failures"]), x["wall_s"],
-                                                                           " UNAVAILABLE: " + x["undecided"] if x["undecided"] else ""))
-        xr = unit_cache["__xreg__"]
-        if xr["ok"]:
-            for xf in xr["failures"]:
+            log("[%s] bounded stand-in %s (%s) …" % (prop, xname, xdef["short"]))
+            unit_cache[ck] = X.run(tier, BUILD, xname)
+            x = unit_cache[ck]
+            log("[%s]   %s: %s %s, %d failing checks, %.1fs%s" % (prop, xname, x["scenarios"], xdef["unit_of_count"], len(x["failures"]), x["wall_s"],
+                                                                 " UNAVAILABLE: " + x["undecided"] if x["undecided"] else ""))
+        xe = unit_cache[ck]
+        extra[xname] = xe
+        if xe["ok"]:
+            for xf in xe["failures"]:
                 if prop in xf["props"].split(","):
-                    f = Failure("xreg", xf["check"], "bounded", xf["check"], xf["detail"], set(xf["props"].split(",")),
-                                "bounded executable stand-in: " + xr["cmd"], 0, backend="rustc+native run (bounded)")
-                    f.input = "model hierarchy: %s\nobserved: %s\nbound: %s" % (json.dumps(xf["scenario"]), xf["detail"], xr["bound"])
-                    all_fail.append((f, {"drift": {r["unit"]: r["drift"] for r in results if r["drift"]}, "path": os.path.join(BUILD, "xreg_unit.rs")}))
+                    f = Failure(xname, xf["check"], "bounded", xf["check"], xf["detail"], set(xf["props"].split(",")),
+                                "bounded executable stand-in: " + xe["cmd"], 0, backend="rustc+native run (bounded)")
+                    f.input = "%s: %s\nobserved: %s\nbound: %s" % (xdef["scenario_word"], json.dumps(xf["scenario"]), xf["detail"], xe["bound"])
+                    all_fail.append((f, {"drift": {r["unit"]: r["drift"] for r in results if r["drift"]}, "path": os.path.join(BUILD, xname + "_unit.rs")}))
+    xr = extra.get("xreg")
     if xfails:
         # a concrete scenario on which the real text contradicts the property statement (bounded search):
         # it becomes the failing input of the obligations Verus refuted for this property, and a
@@ -486,9 +504,12 @@ def evaluate(prop, tier, tmpls, unit_cache, kani_cache):
             "bounded_stand_in": ({"what": "contracts/xsim.rs: real text of Simulation::{step,step_until,process,run,step_to_next_bounded,step_until_unchecked}, util/priority_queue.rs and util/seq_futures.rs cut from /repo with no rewrite rule, compiled against executable stubs, run on every scenario up to the bound and compared with the property statements. LABELLED BOUNDED: not part of obligations/discharged.",
                                   "scenarios": xs["scenarios"], "bound": xs["bound"], "failing_checks": xs["failures"], "samples": xs.get("samples", [])[:6], "unavailable": xs["undecided"],
                                   "seconds": round(xs["wall_s"], 2), "cmd": xs["cmd"]} if xs else None),
-            "bounded_stand_in_registration": ({"what": "contracts/xreg.rs: real text of simulation::add_model, BuildContext, SimInit::add_model, Simulation::{new,run} cut from /repo with no rewrite rule, compiled against executable stubs, run on every model hierarchy up to the bound. LABELLED BOUNDED: not part of obligations/discharged.",
+            "bounded_stand_in_registration": ({"what": EXTRA_STANDINS["xreg"]["what"],
                                                "scenarios": xr["scenarios"], "bound": xr["bound"], "failing_checks": xr["failures"], "samples": xr.get("samples", [])[:4],
                                                "unavailable": xr["undecided"], "seconds": round(xr["wall_s"], 2), "cmd": xr["cmd"]} if xr else None),
+            "bounded_stand_ins_other": {n: {"what": EXTRA_STANDINS[n]["what"], "scenarios": x["scenarios"], "bound": x["bound"], "failing_checks": x["failures"],
+                                            "samples": x.get("samples", [])[:4], "unavailable": x["undecided"], "seconds": round(x["wall_s"], 2), "cmd": x["cmd"]}
+                                        for n, x in extra.items() if n != "xreg"},
             "undecided": undecided,
             "exhaustive": False,
         },
